@@ -16,7 +16,8 @@ Code transcribed
   changes its underlying type (`Cfg.freshType = false`, the code before fixes/C15-named-type-redefinition.diff)
   or creates a new object (`freshType = true`).
 
-Abstractions: names, types and values are numbers (type 0 = int, 1 = string, 2+i = the named type
+Abstractions: names, types and values are numbers (type 0 = int, 1 = string, 2 = float64, 3 = bool
+[string is the only VarBind basic type, the other three are IntBind], 4+i = the named type
 object i; the definition of a named type is a number = the name of its single field); a function
 is its result type and the value it returns; statements of the input that are not declarations are
 `bad` (fail to compile without touching anything: undefined identifier, type error) or `boom`
@@ -33,7 +34,7 @@ inductive Cls where
 
 structure Entry where
   cls : Cls
-  ty : Nat            -- 0 int, 1 string, 2+i named type object i (func: result type, const: type)
+  ty : Nat            -- 0 int, 1 string, 2 float64, 3 bool, 4+i named type object i (func: result type, const: type)
   d0 : Nat            -- variables of a named type: the definition the type had when the variable was declared
   idx : Option Nat    -- slot index, none = NoIndex
   cval : Nat          -- constants: the value
@@ -66,6 +67,7 @@ inductive Item where
   | const (name ty val : Nat)                  -- const n<name> = val
   | func (name ty body : Nat) (ok : Bool)      -- func n<name>() T { return body }   (ok = the body compiles)
   | typ (tname d : Nat)                        -- type T<tname> struct{ F<d> int }
+  | alias (tname target : Nat)                 -- type T<tname> = T<target>
   | bad                                        -- a statement that does not compile
   | boom                                       -- a statement that panics when run
   deriving DecidableEq, Repr, Inhabited
@@ -104,18 +106,22 @@ def setAct (cls : Cls) (idx : Option Nat) (val : Nat) : List Act :=
   | none => []
   | some i => if cls = .ivar then [.setI i val] else [.setV i val]
 
+/-- basic variable types: 0 int, 2 float64, 3 bool live in env.Ints; 1 string (and anything else) in env.Vals -/
+def basicTy (ty : Nat) : Nat := if ty < 4 then ty else 1
+def basicCls (ty : Nat) : Cls := if basicTy ty = 1 then .bvar else .ivar
+
 /-- compile one item: `none` = compile error; the state returned with it is what the failed item
     leaves behind -/
 def compileItem (cfg : Cfg) (st : St) : Item → St × Option (List Act)
   | .var name ty val =>
-    ((newBind st name (if ty = 0 then .ivar else .bvar) (if ty = 0 then 0 else 1) 0 0).1,
-      some (setAct (if ty = 0 then .ivar else .bvar) (newBind st name (if ty = 0 then .ivar else .bvar) (if ty = 0 then 0 else 1) 0 0).2 val))
+    ((newBind st name (basicCls ty) (basicTy ty) 0 0).1,
+      some (setAct (basicCls ty) (newBind st name (basicCls ty) (basicTy ty) 0 0).2 val))
   | .varT name tname val =>
     match st.types.lookup tname with
     | none => (st, none)     -- undefined type: fails before NewBind
     | some o =>
-      ((newBind st name .bvar (2 + o) ((st.objs.lookup o).getD 0) 0).1,
-        some (setAct .bvar (newBind st name .bvar (2 + o) ((st.objs.lookup o).getD 0) 0).2 val))
+      ((newBind st name .bvar (4 + o) ((st.objs.lookup o).getD 0) 0).1,
+        some (setAct .bvar (newBind st name .bvar (4 + o) ((st.objs.lookup o).getD 0) 0).2 val))
   | .const name ty val => ((newBind st name .const (if ty = 0 then 0 else 1) 0 val).1, some [])
   | .func name ty body ok =>
     if ok then ((newBind st name .func (if ty = 0 then 0 else 1) 0 0).1,
@@ -129,6 +135,10 @@ def compileItem (cfg : Cfg) (st : St) : Item → St × Option (List Act)
       else ({ st with objs := (o, d) :: st.objs }, some [])   -- the shared named type object is modified
     | none =>
       ({ st with types := (tname, st.nObj) :: st.types, objs := (st.nObj, d) :: st.objs, nObj := st.nObj + 1 }, some [])
+  | .alias tname target =>
+    match st.types.lookup target with
+    | none => (st, none)     -- undefined type
+    | some o => ({ st with types := (tname, o) :: st.types }, some [])   -- DeclTypeAlias: the name denotes the same object
   | .bad => (st, none)
   | .boom => (st, some [.boom])
 
@@ -181,7 +191,7 @@ def resolve (st : St) (name : Nat) : Option Obs :=
       | .ivar, some i => st.ints.lookup i
       | _, some i => st.vals.lookup i
       | _, none => none
-    let tok : Bool := if e.ty < 2 then true else ((st.objs.lookup (e.ty - 2)) == some e.d0)
+    let tok : Bool := if e.ty < 4 then true else ((st.objs.lookup (e.ty - 4)) == some e.d0)
     some ⟨e.cls, e.ty, e.idx, val, tok⟩
 
 def resolveType (st : St) (tname : Nat) : Option (Nat × Option Nat) :=
